@@ -18,7 +18,7 @@ def setup(reg):
 
 class ParserError(Contract):
     target = "pyab_experiment.language.grammar:ExperimentParser.error"
-    props = ("C06",)
+    props = ("C06", "C11", "C07", "C02")
     allow_any_exception = True
     always_raises = True
 
